@@ -199,6 +199,49 @@ pub fn gen_ops(rng: &mut Rng, len: usize, exec: &mut dyn FnMut(String) -> String
     let big = g.cap > 16;
     let dump_every = if big { 16 } else { 1 };
     let mut done = 0;
+    if case % 11 == 5 {
+        // wide branches: capacity > 16 with enough leaves under one branch that it holds more than 16 separators,
+        // then every stored key (so every separator value) goes through each kind of call
+        (g.exec)("R drop".into());
+        g.cap = [17, 18, 20, 33][g.rng.below(4) as usize];
+        g.universe = (g.cap as i64) * 60;
+        g.base = 0;
+        g.present.clear();
+        g.removed.clear();
+        let c = g.cap;
+        (g.exec)(format!("R new {}", c));
+        let n = g.cap * (19 + g.rng.below(8) as usize);
+        let ascending = g.rng.chance(50);
+        for i in 0..n {
+            let k = if ascending { (i as i64) * 2 } else { g.base + g.rng.range(0, g.universe) };
+            g.insert(k);
+        }
+        (g.exec)("R dump".into());
+        let keys: Vec<i64> = g.present.iter().copied().collect();
+        for (i, k) in keys.iter().enumerate() {
+            match (i + case) % 5 {
+                0 => {
+                    (g.exec)(format!("R get {}", k));
+                }
+                1 => {
+                    (g.exec)(format!("R contains {}", k));
+                }
+                2 => {
+                    g.val += 1;
+                    let v = g.val;
+                    (g.exec)(format!("R getmut {} {}", k, v));
+                }
+                3 => g.insert(*k),
+                _ => {
+                    g.remove(*k);
+                    (g.exec)(format!("R get {}", k));
+                }
+            }
+        }
+        (g.exec)("R dump".into());
+        (g.exec)("R len".into());
+        done = len / 2;
+    }
     while done < len {
         let phase = g.rng.below(6);
         let steps = 8 + g.rng.below((len / 3).max(8) as u64) as usize;
@@ -869,4 +912,152 @@ pub fn gen_helpers(rng: &mut Rng, len: usize, exec: &mut dyn FnMut(String) -> St
     (g.exec)("R partial 5 3".into());
     (g.exec)("R partialfast 5 3".into());
     (g.exec)("R drop".into());
+}
+
+/// C05 under faults: grow a multi-level map with ordinary (model-compared) calls, then alternate
+/// "arm a fuse in the key type's clone / cmp; call a mutator" with every kind of reader on whatever
+/// state the interrupted mutator left behind.  `F` lines are executed by the implementation only.
+pub fn gen_faults(rng: &mut Rng, len: usize, exec: &mut dyn FnMut(String) -> String, _case: usize) {
+    let mut g = Gen::new(rng, exec);
+    g.start(true);
+    let grow = g.cap * (3 + g.rng.below(10) as usize) + len / 8;
+    g.mutate(grow, 80, 0);
+    (g.exec)("R dump".into());
+    let rounds = 3 + g.rng.below(8) as usize;
+    // the key the previous fault round worked on: a second fault next to it hits the same leaf / branch
+    // (e.g. two interrupted borrows in a row empty a leaf that stays linked)
+    let mut focus: Option<i64> = None;
+    for _ in 0..rounds {
+        // a removal that borrows / merges clones one separator (leaf level) or one to two (branch level);
+        // an insert that splits clones one per split level.  cmp runs ~log2(cap) times per level.
+        if g.rng.chance(70) {
+            let span = if g.rng.chance(70) { 1 } else { 3 };
+            let n = 1 + g.rng.below(span);
+            (g.exec)(format!("F arm-clone {}", n));
+        } else {
+            let n = 1 + g.rng.below(12);
+            (g.exec)(format!("F arm-cmp {}", n));
+        }
+        // several mutators in a row: the fuse stays armed until one of them burns it
+        let tries = 1 + g.rng.below(6) as usize;
+        for _ in 0..tries {
+            if g.rng.chance(65) {
+                let k = match focus {
+                    Some(f) if g.rng.chance(70) => {
+                        // nearest stored keys around the focus
+                        let below = g.present.range(..=f).next_back().copied();
+                        let above = g.present.range(f..).next().copied();
+                        match (below, above) {
+                            (Some(a), Some(b)) => if g.rng.chance(50) { a } else { b },
+                            (Some(a), None) => a,
+                            (None, Some(b)) => b,
+                            (None, None) => 0,
+                        }
+                    }
+                    _ => g.present_key().unwrap_or(0),
+                };
+                (g.exec)(format!("F remove {}", k));
+                g.present.remove(&k);
+                focus = Some(k);
+            } else {
+                let k = match focus {
+                    Some(f) if g.rng.chance(50) => f.saturating_add(g.rng.range(0, 5) - 2),
+                    _ => g.some_key(),
+                };
+                g.serial += 1;
+                g.val += 1;
+                let (s, v) = (g.serial, g.val);
+                (g.exec)(format!("F insert {}#{} {}", k, s, v));
+                g.present.insert(k);
+                focus = Some(k);
+            }
+        }
+        // every reader on the state that is left
+        for _ in 0..(3 + g.rng.below(5)) {
+            let line = match g.rng.below(14) {
+                0 => "F items".to_string(),
+                1 => "F itemsfast".to_string(),
+                2 => "F keys".to_string(),
+                3 => "F values".to_string(),
+                4 => "F first".to_string(),
+                5 => "F last".to_string(),
+                6 => "F check".to_string(),
+                7 => "F slice".to_string(),
+                8 => format!("F partial {} 2", g.rng.below(40)),
+                9 => format!("F partialfast {} 2", g.rng.below(40)),
+                10 => {
+                    let (a, b) = (g.some_key(), g.some_key());
+                    let kinds = ["i", "e"];
+                    format!("F range {}{} {}{}", kinds[g.rng.below(2) as usize], a, kinds[g.rng.below(2) as usize], b)
+                }
+                11 => format!("F get {}", g.probe_key()),
+                12 => "F len".to_string(),
+                _ => "F validateop".to_string(),
+            };
+            (g.exec)(line);
+        }
+    }
+    (g.exec)("F drop".into());
+}
+
+/// Exhaustive small scope: case number -> (capacity 4..=7, base shape, one history of `depth` calls over an
+/// alphabet of insert/remove on 4 keys straddling a leaf boundary in the middle of a multi-level tree).
+/// With `cases >= 4 * 4 * 8^depth` every such history is executed; dump after every call.
+pub fn gen_exh(_rng: &mut Rng, depth: usize, exec: &mut dyn FnMut(String) -> String, case: usize) {
+    let cap = 4 + case % 4;
+    let shape = (case / 4) % 4;
+    let mut h = case / 16;
+    let depth = depth.clamp(1, 6);
+    exec(format!("R new {}", cap));
+    let mut serial = 0u64;
+    let mut ins = |exec: &mut dyn FnMut(String) -> String, k: i64| {
+        serial += 1;
+        exec(format!("R insert {}#{} {}", k, serial, 1000 + serial));
+    };
+    // base: even keys (odd keys are the gaps new inserts go into)
+    let n: i64 = match shape {
+        0 => 2 * cap as i64 + 2,         // two or three leaves under one branch
+        1 => 5 * cap as i64 + 3,         // height 3 at capacity 4 and 5
+        2 => 3 * cap as i64 + 1,
+        _ => 7 * cap as i64 + 2,
+    };
+    match shape {
+        2 => {
+            for k in (0..n).rev() {
+                ins(exec, 2 * k);
+            }
+        }
+        _ => {
+            for k in 0..n {
+                ins(exec, 2 * k);
+            }
+        }
+    }
+    if shape == 3 {
+        // thin the tree out so that many leaves sit at their minimum
+        for k in 0..n {
+            if k % 3 == 1 {
+                exec(format!("R remove {}", 2 * k));
+            }
+        }
+    }
+    exec("R dump".into());
+    // four keys around the middle: two stored (even), two gaps (odd)
+    let mid = (n / 2) * 2;
+    let keys = [mid - 1, mid, mid + 1, mid + 2];
+    for _ in 0..depth {
+        let a = h % 8;
+        h /= 8;
+        let k = keys[a % 4];
+        if a < 4 {
+            ins(exec, k);
+        } else {
+            exec(format!("R remove {}", k));
+        }
+        exec("R dump".into());
+    }
+    exec("R items".into());
+    exec("R itemsfast".into());
+    exec("R check".into());
+    exec("R counts".into());
 }
